@@ -301,3 +301,75 @@ func (t *fltTr) valueSources(repo string) (string, error) {
 	fmt.Fprintf(&sb, "(* irconv.go: expandMacro reads an integer literal with strconv.ParseInt(lit.Value, base, bits) *)\nDefinition gen_macro_int_base : Z := %s%%Z.\nDefinition gen_macro_int_bits : Z := %s%%Z.\n\n", base, bits)
 	return sb.String(), nil
 }
+
+// fileFacts: where the file-level predicates (File().Imports / Name / PkgPath) get their facts from -- collectImports, the
+// statements of rulesRunner.run that set them up, and every assignment to the imports / filename fields of the filter
+// parameters in the package. RG.Filters.FileFacts.doc_file_facts is the audited copy behind the model collect_imports.
+func (t *fltTr) fileFacts(repo string) (string, error) {
+	rf, err := flt_parseFile(t.fset, repo+"/ruleguard/runner.go")
+	if err != nil {
+		return "", err
+	}
+	type ent struct{ k, v string }
+	var ents []ent
+	ci := flt_findMethod(rf, "collectImports")
+	if ci == nil {
+		return "", fmt.Errorf("rulesRunner.collectImports not found")
+	}
+	ents = append(ents, ent{"rulesRunner.collectImports", t.text(ci.Type) + " :: " + t.stmtsText(ci.Body.List)})
+	run := flt_findMethod(rf, "run")
+	if run == nil {
+		return "", fmt.Errorf("rulesRunner.run not found")
+	}
+	var setup []string
+	for _, st := range run.Body.List {
+		txt := t.text(st)
+		if strings.Contains(txt, "filename") || strings.Contains(txt, "collectImports") || strings.Contains(txt, "imports") {
+			setup = append(setup, txt)
+		}
+	}
+	ents = append(ents, ent{"rulesRunner.run.setup", strings.Join(setup, " ;; ")})
+	var wiring []string
+	files, err := filepath.Glob(repo + "/ruleguard/*.go")
+	if err != nil {
+		return "", err
+	}
+	sort.Strings(files)
+	for _, fn := range files {
+		if strings.HasSuffix(fn, "_test.go") || strings.Contains(filepath.Base(fn), "verif_hooks") {
+			continue
+		}
+		f, err := flt_parseFile(t.fset, fn)
+		if err != nil {
+			return "", err
+		}
+		ast.Inspect(f, func(nd ast.Node) bool {
+			as, ok := nd.(*ast.AssignStmt)
+			if !ok {
+				return true
+			}
+			for _, l := range as.Lhs {
+				x := l
+				if ix, ok := x.(*ast.IndexExpr); ok {
+					x = ix.X
+				}
+				if se, ok := x.(*ast.SelectorExpr); ok && (se.Sel.Name == "imports" || se.Sel.Name == "filename") {
+					wiring = append(wiring, filepath.Base(fn)+": "+t.text(as))
+				}
+			}
+			return true
+		})
+	}
+	ents = append(ents, ent{"filterParams.imports/filename", strings.Join(wiring, " ;; ")})
+	var sb strings.Builder
+	sb.WriteString("(* runner.go: where the file-level predicates get their facts from *)\nDefinition gen_file_facts : list (string * string) := [\n")
+	for i, e := range ents {
+		sep := ";"
+		if i == len(ents)-1 {
+			sep = ""
+		}
+		fmt.Fprintf(&sb, "  (%s, %s)%s\n", flt_coqStr(e.k), flt_coqStr(e.v), sep)
+	}
+	sb.WriteString("].\n\n")
+	return sb.String(), nil
+}
